@@ -36,8 +36,21 @@ def functions_for(pid):
         props = set(con.props)
         for _, _, p in con.ensures:
             props.update(p or ())
-        if pid in props:
+        if pid in props and not getattr(con, "assumed", None):
             out.append(key)
+    return sorted(out)
+
+
+def assumed_for(pid):
+    """repository functions whose contract is used by callers but whose body is not verified (listed as assumptions)"""
+    from .contracts import REGISTRY
+    out = []
+    for key, con in REGISTRY.items():
+        props = set(con.props)
+        for _, _, p in con.ensures:
+            props.update(p or ())
+        if pid in props and getattr(con, "assumed", None):
+            out.append("%s: %s" % (key, con.assumed))
     return sorted(out)
 
 
@@ -116,14 +129,23 @@ def load_known():
 
 
 def match_known(known, pid, ob):
+    """a failing obligation / bounded failure is a known finding only if it is the listed obligation on the listed
+    path (or with the listed observation / input): anything else of the same property is a fresh violation"""
     for f in known.get("findings", []):
         if f.get("property") != pid:
             continue
         if f.get("obligation") != ob["name"]:
             continue
         need = f.get("path_contains", [])
-        if all(any(n in s for s in ob.get("sig_full", ob["sig"])) for n in need):
-            return f
+        if not all(any(n in s for s in ob.get("sig_full", ob["sig"])) for n in need):
+            continue
+        oc = f.get("observed_contains")
+        if oc is not None and oc not in str(ob.get("observed", "")):
+            continue
+        ic = f.get("input_contains")
+        if ic is not None and not all(json.dumps(ob.get("input", {}), sort_keys=True, default=str).find(x) >= 0 for x in ic):
+            continue
+        return f
     return None
 
 
@@ -199,12 +221,23 @@ def check_property(pid, tier="quick", seed=0, extra_checks=None):
     # extra (bounded / structural) checks registered by the property module
     if extra_checks:
         for chk in extra_checks:
-            rep = chk(tier, seed)
+            try:
+                rep = chk(tier, seed)
+            except Exception as e:
+                import traceback
+                faults.append(("bounded:%s" % getattr(chk, "__module__", "?"), "%s: %s %s" % (type(e).__name__, e, traceback.format_exc()[-500:])))
+                continue
+            fails = rep.pop("failures", [])
+            rep["failures"] = len(fails)
             extra_report.append(rep)
-            for v in rep.get("violations", []):
-                violations.append((None, v))
+            for fl in fails:
+                bounded_vios.append(({"function": fl["name"].split("/")[0]}, {"clause": fl["name"], "input": fl.get("input"),
+                                                                           "observed": fl.get("observed"), "_full_name": fl["name"]}))
     # report -------------------------------------------------------------------------------------------
     os.makedirs(os.path.join(REPLAYS, pid), exist_ok=True)
+    for old_ in os.listdir(os.path.join(REPLAYS, pid)):      # replay files describe the latest run only
+        if old_.endswith(".json"):
+            os.unlink(os.path.join(REPLAYS, pid, old_))
     seen_known = set()
     for kf, ob in known_hits:
         if kf["id"] not in seen_known:
@@ -231,8 +264,8 @@ def check_property(pid, tier="quick", seed=0, extra_checks=None):
         confirmed = bool(cexrec.get("confirmed"))
         vio_lines.append("VIOLATION property=%s replay=%s%s" % (pid, path, "" if confirmed else " no-failing-input-found"))
     for fr, fl in bounded_vios:
-        name = "%s/post[%s]" % (fr["function"], fl["clause"])
-        kf = match_known(known, pid, {"name": name, "sig": ["bounded"], "input": fl["input"]})
+        name = fl.get("_full_name") or "%s/post[%s]" % (fr["function"], fl["clause"])
+        kf = match_known(known, pid, {"name": name, "sig": ["bounded"], "input": fl["input"], "observed": fl.get("observed")})
         if kf is not None:
             if kf["id"] not in seen_known:
                 seen_known.add(kf["id"])
@@ -277,7 +310,7 @@ def check_property(pid, tier="quick", seed=0, extra_checks=None):
             "explanation": meta.get("explanation", ""),
             "not_decided_clauses": meta.get("not_decided", []),
         },
-        "assumptions": meta.get("assumptions", []),
+        "assumptions": list(meta.get("assumptions", [])) + assumed_for(pid),
         "wall_s": round(wall, 2),
         "violations": len(vio_lines),
     }
